@@ -173,6 +173,16 @@ class UpdaterSystem:
         elif self.form == "full":
             f, kw = FULL[self.ukind]
             acc.fullbound(f, MAX, MIN, **kw)
+        if self.form in ("half", "half-rev"):
+            # a bystander: ANOTHER host's accumulator gets different half bounds (other forms, other limits) after p's were
+            # installed, and one more is installed on a third and removed again; bounds are per accumulator, so p's are untouched
+            st.other = Host()
+            st.other.updater = st.other.defaultupdater()
+            ou = next(k for k in HALF_UP if k != self.ukind)
+            ol = next(k for k in HALF_LO if k != self.lkind)
+            st.other.updater.p.upperbound(HALF_UP[ou][0], 0.25, **HALF_UP[ou][1])
+            st.other.updater.q.lowerbound(HALF_LO[ol][0], -0.125, **HALF_LO[ol][1])
+            st.other.updater.p.lowerbound(HALF_LO[ol][0], -0.125, **HALF_LO[ol][1])
         st.val = {k: list(v) for k, v in P0.items()}
         st.pos = {"p": [], "q": []}
         st.neg = {"p": [], "q": []}
@@ -201,6 +211,7 @@ class UpdaterSystem:
         yield ("clear",)
         yield ("updatesome", "p", True)
         yield ("updatesome", "q", False)
+        yield ("updatesome0",)  # an empty selection: applies nothing and clears nothing (pending parts stay pending)
         yield ("updatesome2", ("p", "q"), True)
         yield ("updatesome2", ("q", "p"), True)
         if self.form in ("half", "half-rev"):
@@ -292,6 +303,8 @@ class UpdaterSystem:
                 self.apply(st, prm)
                 if clr:
                     st.pos[prm], st.neg[prm] = [], []
+            elif name == "updatesome0":
+                st.host.updatesome()
             elif name == "updatesome2":
                 _, prms, clr = op
                 st.host.updatesome(*prms, clear=clr)
